@@ -1,0 +1,31 @@
+//go:build verif
+
+// Contracts for the interactive interpreter (C20).  See /verif/DESIGN.md.
+
+package repl
+
+// replprompt[0]: the prompt last set on the terminal (state of the UI, changed only by SetPrompt)
+//@ ghost replprompt string stable
+
+//@ iface UI.SetPrompt(self, p)
+//@   modifies *
+//@   modifies replprompt[0]
+//@   ensures set: replprompt[0] == p
+
+//@ iface UI.Print(self, s)
+//@   modifies *
+
+//@ spec replWF(r *REPL) bool = (r.continuation <==> replprompt[0] == ContinuationPrompt) && (!r.continuation ==> r.previous == "" && replprompt[0] == NormalPrompt)
+
+//@ func (*REPL).Run(r, line) (err)
+//@   requires nn: r.term != nil && r.Context != nil && r.Module != nil
+//@   requires wf: replWF(r)
+//@   protects r
+//@   modifies *
+//@   ensures wf: replWF(r)
+//@   ensures once: opcnt[45] <= 1
+//@   ensures ran: opcnt[45] == 1 ==> !r.continuation && r.previous == ""
+//@   ensures buffered1: old(r.continuation) && line != "" ==> opcnt[45] == 0
+//@   ensures buffered2: old(r.continuation) && line != "" ==> r.continuation
+//@   ensures buffered3: old(r.continuation) && line != "" ==> r.previous == old(r.previous) + (line + "\n")
+//@   ensures more: r.continuation && !old(r.continuation) ==> opcnt[45] == 0 && r.previous == old(r.previous) + (line + "\n")
